@@ -39,7 +39,7 @@ class Crashed(Broken):
             return None
         for l in lines[i + 1:]:
             l = l.strip()
-            if not l or l.startswith(("goroutine ", "/", "created by", "[")) or l.startswith(("runtime.", "log.", "panic(", "sync.", "reflect.")):
+            if not l or l.startswith(("goroutine ", "/", "created by", "[", "fatal error:", "panic:")) or l.startswith(("runtime.", "log.", "panic(", "sync.", "internal/", "reflect.")):
                 continue
             if l.startswith("github.com/sarchlab/akita"):
                 return lines[i].strip() + " in " + l.split("(")[0]
